@@ -270,21 +270,23 @@ Qed.
 
 End Main.
 
-(** * The control flow with both fixes ([midcheck = postcopy = true]): every checkpoint mode *)
+(** * The repaired control flow ([postcopy = true], and [midcheck = true] or
+      [recheck = true]; /repo HEAD has all three): every checkpoint mode *)
 Section Fixed.
 Variable data : Type.
 Variable zero : data.
 Variable lock : N.
-(** [recheck = false]: /repo as it stands; [true]: with the proposed re-read *)
+Variable midcheck : bool.
 Variable recheck : bool.
+Hypothesis Hmr : midcheck = true \/ recheck = true.
 
 Local Notation state := (state data).
 Local Notation inv := (inv data zero lock).
 Local Notation safe := (safe data recheck).
-Local Notation step := (step data lock true true recheck).
-Local Notation run := (run data lock true true recheck).
-Local Notation steps_ok := (steps_ok data lock true true recheck).
-Local Notation steps_window := (steps_window data lock true true recheck).
+Local Notation step := (step data lock midcheck true recheck).
+Local Notation run := (run data lock midcheck true recheck).
+Local Notation steps_ok := (steps_ok data lock midcheck true recheck).
+Local Notation steps_window := (steps_window data lock midcheck true recheck).
 Local Notation restoreL := (restore data zero lock).
 Local Notation acks_true := (acks_true data).
 
@@ -494,22 +496,36 @@ Qed.
 
 End Fixed.
 
-(** with the proposed re-read after the post-checkpoint copy no side condition is left *)
-Lemma steps_window_recheck (data : Type) (lock : N) ls : forall (s : state data),
-  steps_window data lock true true true s ls.
+(** with the header re-read after the post-checkpoint copy (commit bb88a29) no side condition is left *)
+Lemma steps_window_recheck (data : Type) (lock : N) (midcheck : bool) ls : forall (s : state data),
+  steps_window data lock midcheck true true s ls.
 Proof.
   induction ls as [|l r IH]; intros s; cbn [Machine.steps_window]; [exact I|].
   split; [destruct l; try reflexivity; destruct restart; reflexivity|].
-  destruct (step data lock true true true s l); [apply IH|exact I].
+  destruct (step data lock midcheck true true s l); [apply IH|exact I].
 Qed.
 
-Theorem acked_sync_restores_recheck (data : Type) (zero : data) (lock : N) s0 ls s :
+(** ** C01 for /repo HEAD: all four checkpoint modes, every interleaving, no side condition *)
+Theorem acked_sync_restores_head (data : Type) (zero : data) (lock : N) s0 ls s :
   init_ok data zero lock s0 -> run data lock true true true s0 ls = Some s ->
   steps_ok data lock true true true s0 ls ->
   forall n im b, In (n, im, b) (acks data s) ->
   img_eq data (restore data zero lock (firstn n (l0 data s))) im.
 Proof.
-  intros Hi E Hok. eapply acked_sync_restores_lemma; eauto. apply steps_window_recheck.
+  intros Hi E Hok. eapply (acked_sync_restores_lemma data zero lock true true (or_introl eq_refl)); eauto.
+  apply steps_window_recheck.
+Qed.
+
+(** with that re-read the first one (commit 80a5b27) is no longer needed for C01:
+    a restart before the PRAGMA is seen by the re-read after the copy *)
+Theorem acked_sync_restores_first_read_redundant (data : Type) (zero : data) (lock : N) s0 ls s :
+  init_ok data zero lock s0 -> run data lock false true true s0 ls = Some s ->
+  steps_ok data lock false true true s0 ls ->
+  forall n im b, In (n, im, b) (acks data s) ->
+  img_eq data (restore data zero lock (firstn n (l0 data s))) im.
+Proof.
+  intros Hi E Hok. eapply (acked_sync_restores_lemma data zero lock false true (or_intror eq_refl)); eauto.
+  apply steps_window_recheck.
 Qed.
 
 (** * Non-vacuity: two generations, a PASSIVE checkpoint, an application commit
@@ -555,7 +571,7 @@ Definition ex_steps : list (label N) :=
 Example ex_init_ok : init_ok N 0%N 1000%N ex_init.
 Proof. unfold init_ok. cbn. repeat split; auto. Qed.
 
-Example ex_steps_ok : steps_ok N 1000%N true true false ex_init ex_steps.
+Example ex_steps_ok : steps_ok N 1000%N true true true ex_init ex_steps.
 Proof.
   cbn [ex_steps Machine.steps_ok].
   repeat (split; [first [exact I | apply tx_okb_sound; vm_compute; reflexivity]|]; vm_compute Machine.step; cbv iota beta).
@@ -573,16 +589,16 @@ Example ex_run :
                         snd (restore N 0%N 1000%N (l0 N s)),
                         map (fst (restore N 0%N 1000%N (l0 N s))) [1; 2; 3; 4]%N,
                         map (fst (committed N s)) [1; 2; 3; 4]%N))
-             (run N 1000%N true true false ex_init ex_steps)
+             (run N 1000%N true true true ex_init ex_steps)
   = Some (5, 1, Idle, AtLive 2, [5; 2], 4%N, [12; 23; 33; 44]%N, [12; 23; 33; 44]%N).
 Proof. vm_compute. reflexivity. Qed.
 
 Example ex_theorem_applies :
-  forall s, run N 1000%N true true false ex_init ex_steps = Some s ->
+  forall s, run N 1000%N true true true ex_init ex_steps = Some s ->
   forall n im b, In (n, im, b) (acks N s) ->
   img_eq N (restore N 0%N 1000%N (firstn n (l0 N s))) im.
 Proof.
-  intros s E. eapply acked_sync_restores_passive_truncate; [exact ex_init_ok|exact E|exact ex_steps_ok|exact ex_pt].
+  intros s E. eapply (acked_sync_restores_passive_truncate N 0%N 1000%N true true (or_introl eq_refl)); [exact ex_init_ok|exact E|exact ex_steps_ok|exact ex_pt].
 Qed.
 
 (** a TRUNCATE checkpoint with application commits on both sides of the release
@@ -608,7 +624,7 @@ Definition ex2_steps : list (label N) :=
     LsBoundarySnap N;
     LsAck N ].
 
-Example ex2_steps_ok : steps_ok N 1000%N true true false ex_init ex2_steps.
+Example ex2_steps_ok : steps_ok N 1000%N true true true ex_init ex2_steps.
 Proof.
   cbn [ex2_steps Machine.steps_ok].
   repeat (split; [first [exact I | apply tx_okb_sound; vm_compute; reflexivity]|]; vm_compute Machine.step; cbv iota beta).
@@ -621,7 +637,7 @@ Example ex2_run :
                         snd (restore N 0%N 1000%N (l0 N s)),
                         map (fst (restore N 0%N 1000%N (l0 N s))) [1; 2; 3]%N,
                         map (fst (committed N s)) [1; 2; 3]%N))
-             (run N 1000%N true true false ex_init ex2_steps)
+             (run N 1000%N true true true ex_init ex2_steps)
   = Some (2, 1, Idle, AtLive 1, [(2, true); (1, true)], 3%N, [13; 24; 31]%N, [13; 24; 31]%N).
 Proof. vm_compute. reflexivity. Qed.
 
@@ -697,14 +713,14 @@ Qed.
 Definition fixed_steps : list (label N) :=
   firstn 16 bad_steps ++ [LsLockWrite N; LsBoundarySnap N; LsAck N].
 
-Example fixed_steps_ok : steps_ok N 1000%N true true false ex_init fixed_steps.
+Example fixed_steps_ok : steps_ok N 1000%N true true true ex_init fixed_steps.
 Proof.
   cbn [fixed_steps bad_steps firstn app Machine.steps_ok].
   repeat (split; [first [exact I | apply tx_okb_sound; vm_compute; reflexivity]|]; vm_compute Machine.step; cbv iota beta).
   exact I.
 Qed.
 
-Example fixed_steps_window : steps_window N 1000%N true true false ex_init fixed_steps.
+Example fixed_steps_window : steps_window N 1000%N true true true ex_init fixed_steps.
 Proof.
   cbn [fixed_steps bad_steps firstn app Machine.steps_window].
   repeat (split; [reflexivity|]; vm_compute Machine.step; cbv iota beta).
@@ -716,12 +732,12 @@ Example fixed_run :
                         map (fun a => (fst (fst a), snd a)) (acks N s),
                         map (fst (restore N 0%N 1000%N (l0 N s))) [1; 2]%N,
                         map (fst (committed N s)) [1; 2]%N))
-             (run N 1000%N true true false ex_init fixed_steps)
+             (run N 1000%N true true true ex_init fixed_steps)
   = Some (2, 2, Idle, AtLive 1, [(2, true); (1, true)], [99; 22]%N, [99; 22]%N).
 Proof. vm_compute. reflexivity. Qed.
 
 (** and the old re-copy step is no longer enabled there *)
-Example fixed_no_recopy : run N 1000%N true true false ex_init bad_steps = None.
+Example fixed_no_recopy : run N 1000%N true true true ex_init bad_steps = None.
 Proof. vm_compute. reflexivity. Qed.
 
 (** * The window commit 80a5b27 alone leaves open (postcopy = false): FULL/RESTART, between the
@@ -798,14 +814,14 @@ Definition fixed2_steps : list (label N) :=
     LsSync N 1;                    (* evidence (C), now sound: incremental from the new header *)
     LsAck N ].
 
-Example fixed2_steps_ok : steps_ok N 1000%N true true false ex_init fixed2_steps.
+Example fixed2_steps_ok : steps_ok N 1000%N true true true ex_init fixed2_steps.
 Proof.
   cbn [fixed2_steps bad2_steps firstn app Machine.steps_ok].
   repeat (split; [first [exact I | apply tx_okb_sound; vm_compute; reflexivity]|]; vm_compute Machine.step; cbv iota beta).
   exact I.
 Qed.
 
-Example fixed2_steps_window : steps_window N 1000%N true true false ex_init fixed2_steps.
+Example fixed2_steps_window : steps_window N 1000%N true true true ex_init fixed2_steps.
 Proof.
   cbn [fixed2_steps bad2_steps firstn app Machine.steps_window].
   repeat (split; [reflexivity|]; vm_compute Machine.step; cbv iota beta).
@@ -817,11 +833,11 @@ Example fixed2_run :
                         map (fun a => (fst (fst a), snd a)) (acks N s),
                         map (fst (restore N 0%N 1000%N (l0 N s))) [1; 2]%N,
                         map (fst (committed N s)) [1; 2]%N))
-             (run N 1000%N true true false ex_init fixed2_steps)
+             (run N 1000%N true true true ex_init fixed2_steps)
   = Some (3, 1, Idle, AtLive 1, [(3, true); (1, true)], [99; 22]%N, [99; 22]%N).
 Proof. vm_compute. reflexivity. Qed.
 
-(** * The window both fixes leave open ([window_ok]): FULL/RESTART, between the
+(** * The window commits 80a5b27 + 6edd82b leave open (recheck = false, [window_ok]): FULL/RESTART, between the
       header re-read after the PRAGMA and the header read of the copy that
       follows it.  As before an appended and backfilled frame 3 sits behind
       litestream's re-acquired mark 0 and the re-read finds the header
@@ -873,7 +889,7 @@ Proof.
     assert (11 = 99)%N by (apply Hp; lia). discriminate.
 Qed.
 
-(** the same history with the proposed re-read after the copy: it sees the new
+(** the same history with the re-read after the copy (commit bb88a29): it sees the new
     generation, the boundary snapshot is taken, the acknowledgement restores
     frame 3's page *)
 Definition fixed3_steps : list (label N) :=
